@@ -1,11 +1,10 @@
 import Ldlm.Model.Crash
-import Ldlm.Props.Pins
 import Ldlm.Props.C17
 /-!
 C09 — A kill at any instant leaves a loadable, acknowledged-consistent state file.
 
 Model M7 (`Ldlm.Crash`): one step per file operation of `store.Write` (pinned to its source text:
-`Pins.pin_StoreWrite`) and per manager call of the server threads; a crash point is ANY reachable
+`Pins.C09.pin_StoreWrite`) and per manager call of the server threads; a crash point is ANY reachable
 state of ANY schedule.
 
 * `always_loadable` — at every crash point the file is either a complete encoding of a bookkeeping
